@@ -225,6 +225,81 @@ pub fn local_failures(p: &MockProver<Fq>, cells: &[(usize, usize)]) -> usize {
     rows_near(cells, last).iter().map(|r| t.failing_at(*r)).sum()
 }
 
+/// Limb re-decomposition: if `poly` at `row` is linear in the free cells `cells`
+/// with coefficients a_j = a_min * 2^(k_j), sets them to the radix digits of the
+/// value that zeroes it. Kept only if the failing count around the cells drops.
+fn radix_repair(p: &MockProver<Fq>, n: i64, poly: &Expression<Fq>, row: usize, cells: &[(usize, usize)], last: usize, t: &Tables<'_>) -> Option<Vec<((usize, usize), Fq)>> {
+    use ff::PrimeField;
+    use num_bigint::BigUint;
+    if cells.len() < 2 || cells.len() > 40 {
+        return None;
+    }
+    let big = |f: &Fq| BigUint::from_bytes_le(f.to_repr().as_ref());
+    let eval = |ov: Vec<((usize, usize), Fq)>| Tables { p, n, ov }.eval(poly, row);
+    let zeros: Vec<((usize, usize), Fq)> = cells.iter().map(|c| (*c, Fq::ZERO)).collect();
+    let c0 = eval(zeros.clone());
+    let mut coef = vec![];
+    for j in 0..cells.len() {
+        let mut ov = zeros.clone();
+        ov[j].1 = Fq::ONE;
+        coef.push(eval(ov) - c0);
+    }
+    // linearity check at another point
+    let probe: Vec<((usize, usize), Fq)> = cells.iter().enumerate().map(|(j, c)| (*c, Fq::from(3 + j as u64))).collect();
+    let lin = coef.iter().enumerate().fold(c0, |acc, (j, a)| acc + *a * Fq::from(3 + j as u64));
+    if eval(probe) != lin {
+        return None;
+    }
+    // cells with a non-zero coefficient, as multiples 2^k of the smallest one
+    let mut idx: Vec<usize> = (0..cells.len()).filter(|j| coef[*j] != Fq::ZERO).collect();
+    if idx.len() < 2 {
+        return None;
+    }
+    let a_min = {
+        // the coefficient a such that all others are a * 2^k with small k: try each
+        let mut best = None;
+        for &j in &idx {
+            let inv = Option::<Fq>::from(coef[j].invert())?;
+            if idx.iter().all(|i| {
+                let r = big(&(coef[*i] * inv));
+                r.bits() <= 250 && r.count_ones() == 1
+            }) {
+                best = Some(coef[j]);
+                break;
+            }
+        }
+        best?
+    };
+    let inv = Option::<Fq>::from(a_min.invert())?;
+    let mut ks: Vec<(u64, usize)> = idx.drain(..).map(|j| (big(&(coef[j] * inv)).bits() - 1, j)).collect();
+    ks.sort();
+    if ks.windows(2).any(|w| w[0].0 == w[1].0) {
+        return None;
+    }
+    let target = big(&(-c0 * inv));
+    if target.bits() > 250 {
+        return None;
+    }
+    let mut assign = vec![];
+    for (i, (k, j)) in ks.iter().enumerate() {
+        let shifted = &target >> *k;
+        let digit = if i + 1 < ks.len() { shifted % (BigUint::from(1u8) << (ks[i + 1].0 - k)) } else { shifted };
+        let mut bytes = digit.to_bytes_le();
+        bytes.resize(32, 0);
+        let v = Option::<Fq>::from(Fq::from_repr(bytes.try_into().ok()?))?;
+        assign.push((cells[*j], v));
+    }
+    // the low bits below the smallest coefficient must vanish
+    if ks[0].0 != 0 && (&target % (BigUint::from(1u8) << ks[0].0)) != BigUint::from(0u8) {
+        return None;
+    }
+    let rows = rows_near(&assign.iter().map(|a| a.0).collect::<Vec<_>>(), last);
+    let before: usize = rows.iter().map(|r| t.failing_at(*r)).sum();
+    let tt = Tables { p, n, ov: assign.clone() };
+    let after: usize = rows.iter().map(|r| tt.failing_at(*r)).sum();
+    (after < before).then_some(assign)
+}
+
 /// Tries up to `depth` repairs. Returns the number of repairs made. `protected`
 /// are the cells the fault changed: failures are looked for around them.
 pub fn attempt(p: &mut MockProver<Fq>, changed: &mut Vec<(usize, usize)>, rng: &mut Prng, depth: usize) -> usize {
@@ -239,7 +314,7 @@ pub fn attempt(p: &mut MockProver<Fq>, changed: &mut Vec<(usize, usize)>, rng: &
     let mut made = 0;
     let mut touched: Vec<(usize, usize)> = changed.clone();
     for _ in 0..depth {
-        let fix: Option<(Vec<(usize, usize)>, Fq)> = {
+        let fix: Option<Vec<((usize, usize), Fq)>> = {
             let t = Tables { p, n, ov: vec![] };
             let fails = failing(p, &t, &rows_near(&touched, last));
             if fails.is_empty() {
@@ -265,6 +340,7 @@ pub fn attempt(p: &mut MockProver<Fq>, changed: &mut Vec<(usize, usize)>, rng: &
                 }
                 rng.shuffle(&mut groups);
                 groups.sort_by_key(|g| g.len());
+                let free_cells: Vec<(usize, usize)> = groups.iter().filter(|g| g.len() == 1).map(|g| g[0]).collect();
                 for g in groups.into_iter().take(12) {
                     // rows whose constraints may mention a changed cell
                     let mut rows: Vec<usize> = vec![];
@@ -281,10 +357,17 @@ pub fn attempt(p: &mut MockProver<Fq>, changed: &mut Vec<(usize, usize)>, rng: &
                         let tt = Tables { p, n, ov: g.iter().map(|c| (*c, root)).collect() };
                         let after: usize = rows.iter().map(|r| tt.failing_at(*r)).sum();
                         if after < before {
-                            found = Some((g.clone(), root));
+                            found = Some(g.iter().map(|c| (*c, root)).collect());
                             break 'outer;
                         }
                     }
+                }
+                // radix repair: the polynomial is linear in several free cells whose
+                // coefficients are powers of two of one another (a limb decomposition):
+                // re-decompose the target over them
+                if let Some(assign) = radix_repair(p, n, poly, *row, &free_cells, last, &t) {
+                    found = Some(assign);
+                    break 'outer;
                 }
             }
             found
@@ -294,8 +377,8 @@ pub fn attempt(p: &mut MockProver<Fq>, changed: &mut Vec<(usize, usize)>, rng: &
                 *changed = touched;
                 return made;
             }
-            Some((cells, v)) => {
-                for (col, row) in cells {
+            Some(assign) => {
+                for ((col, row), v) in assign {
                     p.advice_mut()[col][row] = CellValue::Assigned(v);
                     touched.push((col, row));
                 }
